@@ -246,6 +246,9 @@ class SpecDB:
             return FunV("uninterp", fn=fn, name=name)
         if tag == "Kwargs":
             return DictV({}, opaque=True)
+        if tag == "Named":
+            fields = list(t.kw)
+            return NamedTupV(t.args[0], fields, [self.make(I, st, t.kw[f], f"{name}.{f}") for f in fields])
         if tag == "Obj":
             cls = t.args[0]
             shape = self.classes.get(cls)
@@ -301,6 +304,8 @@ class SpecDB:
             bad = I.fork(cur)
             res.append((bad, Exc(exc, f"may be raised by {short}", wh)))
         st = cur
+        if c.opts.get("assumed_contract"):
+            I.assumed.add(f"assumed contract of {c.qual} (not verified statically; see level_note)")
         if c.opts.get("event"):
             st.ghost.setdefault("events", []).append((c.opts["event"], dict(env)))
         heap_pre = dict(st.heap)
@@ -773,6 +778,54 @@ class Pure:
                 if out is None:
                     raise EngineError("nearest: unknown strategy")
                 return Num(out, "int")
+            if name in ("fs_kind", "fs_content", "fs0_kind", "fs0_content", "net_calls", "net_calls0", "sha", "good", "good_data",
+                        "data_of", "unpickle", "path_join"):
+                from . import oslib
+                st_ = self.st
+                if name == "path_join":
+                    t = args[0].term()
+                    for p_ in args[1:]:
+                        t = z3.Concat(t, z3.StringVal("/"), p_.term())
+                    return StrV(t)
+                if name in ("fs_kind", "fs_content"):
+                    f_ = oslib.fs_get(st_, args[0])
+                    return Num(f_.kind, "int") if name == "fs_kind" else StrV(f_.content)
+                if name in ("fs0_kind", "fs0_content"):
+                    oslib.fs_get(st_, args[0])
+                    f0 = st_.ghost.get("fs0", {}).get(oslib.key_of(args[0]))
+                    if f0 is None:
+                        f0 = oslib.fs_get(st_, args[0])
+                    return Num(f0.kind, "int") if name == "fs0_kind" else StrV(f0.content)
+                if name == "net_calls":
+                    return Num(oslib.net_calls(st_), "int")
+                if name == "net_calls0":
+                    return Num(st_.ghost.get("net_calls0", z3.IntVal(0)), "int")
+                if name == "sha":
+                    return StrV(oslib.SHA(args[0].term()))
+                if name == "good":
+                    return Num(oslib.GOOD(args[0].term(), args[1].term(), self.as_bool(args[2])), "bool")
+                if name == "unpickle":
+                    return Num(oslib.UNPICKLE(args[0].term()), "int")
+                if name in ("data_of", "good_data"):
+                    v = args[0]
+                    did = getattr(v.o, "data_id", None) if isinstance(v, F2) else None
+                    if did is None:
+                        raise EngineError("spec: value has no data identity")
+                    if name == "data_of":
+                        return Num(did, "int")
+                    return Num(oslib.GOODDATA(did, args[1].term(), self.as_bool(args[2])), "bool")
+            if name in ("file_pos", "file_content", "hash_acc", "strlen", "strcat", "substr"):
+                if name == "file_pos":
+                    return args[0].fields["pos"]
+                if name == "file_content":
+                    return args[0].fields["content"]
+                if name == "hash_acc":
+                    return args[0].fields["acc"]
+                if name == "strlen":
+                    return Num(z3.Length(args[0].term()), "int")
+                if name == "strcat":
+                    return StrV(z3.Concat(args[0].term(), args[1].term()))
+                return StrV(z3.SubString(args[0].term(), to_int(args[1]), to_int(args[2])))
             if name in ("env_is_set", "env_value", "expanduser"):
                 from .libcalls import ENV_SET, ENV_VAL, EXPANDUSER
                 t = args[0].term()
@@ -896,11 +949,18 @@ def verify_function(db, modules, qual, bounded=False, sizes=None):
         st.env = dict(env)
         st.heap0 = dict(st.heap)
         st.env0 = dict(env)
+        if c.opts.get("no_frame") and ("fs_guarantee" in c.opts or "datasets" in qual):
+            n0 = z3.Int(fresh_name("net_calls0"))
+            st.assume(n0 >= 0)
+            st.ghost["net_calls"] = n0
+            st.ghost["net_calls0"] = n0
         pre_env = {k: freeze(I, v, st.heap) for k, v in env.items()}
         for name in c.requires:
             st.assume(db.eval_clause(I, st, db.clause(c, name), pre_env))
         for name in c.hints.get(("entry", "head"), []):
             I.oblige(st, db.eval_clause(I, st, db.clause(c, name), pre_env), "hint", name, "entry")
+        if c.opts.get("program_point_invariant"):
+            I.pp_inv = (db, c, c.opts["program_point_invariant"], pre_env)
         combo_tag = ",".join(f"{p}:{t.tag}" for p, t in combo if len(db.alternatives(c.params[p])) > 1)
         outs = I.exec_block(fdef.body, st)
         for s, ctl in outs:
@@ -976,8 +1036,37 @@ def frame_goals(db, I, c, s, env, strict_fields=False):
     return goals
 
 
+def fs_guarantee(db, I, c, s, pre_env, wh):
+    """rely/guarantee: every file-system action of the function stays below its own temporary directory, or is the
+    atomic rename of a complete, verified file onto the cache entry"""
+    name = c.opts.get("fs_guarantee")
+    if not name:
+        return
+    from . import oslib
+    p = Pure(db, I, s, c.file)
+    cl = db.clause(c, name)
+    final = p.ev(cl.expr, {a: pre_env[a] for a in cl.args})
+    fkey = oslib.key_of(final)
+    tmp = s.ghost.get("tmpdirs", [])
+    for act in s.ghost.get("fs_actions", []):
+        kind = act[0]
+        if kind == "makedirs":
+            continue
+        if kind == "rmtree":
+            I.oblige(s, z3.BoolVal(act[1] in tmp), "fs-guarantee", "rmtree-own-tmpdir", wh, assume=False)
+        elif kind == "write":
+            I.oblige(s, z3.BoolVal(any(t in act[1] for t in tmp)), "fs-guarantee", "write-below-own-tmpdir", wh, assume=False)
+        elif kind == "rename":
+            I.oblige(s, z3.BoolVal(act[2] == fkey and any(t in act[1] for t in tmp)), "fs-guarantee", "rename-onto-cache-entry-only", wh, assume=False)
+            st_ = act[3]
+            chk = pre_env["remote"].items[pre_env["remote"].fields.index("checksum")].term()
+            gz = pre_env["gzip"].t
+            I.oblige(s, z3.And(st_.kind == 2, oslib.GOOD(st_.content, chk, gz)), "fs-guarantee", "renamed-file-complete-and-verified", wh, assume=False)
+
+
 def finish_return(db, I, c, s, env, pre_env, retv, tag):
     wh = "return" + (f"[{tag}]" if tag else "")
+    fs_guarantee(db, I, c, s, pre_env, wh)
     I.canary(s, "canary-return", wh)
     for exc, name in c.raises.items():
         cond = db.eval_clause(I, s, db.clause(c, name), pre_env)
@@ -1042,6 +1131,7 @@ def finish_return(db, I, c, s, env, pre_env, retv, tag):
 
 def finish_raise(db, I, c, s, env, pre_env, exc, tag):
     wh = f"{exc.where}" + (f"[{tag}]" if tag else "")
+    fs_guarantee(db, I, c, s, pre_env, wh + ":" + exc.cls)
     if exc.cls in c.raises:
         cond = db.eval_clause(I, s, db.clause(c, c.raises[exc.cls]), pre_env)
         I.oblige(s, cond, "raises-only-if", f"{exc.cls}:{c.raises[exc.cls]}", wh)
